@@ -50,6 +50,7 @@ var optAlpha = map[string][]rune{
 	"csv-wide":           {'a', 0xff1b, 0xab, '"', '\r', '\n', 0x416},
 	"generic-quotes":     {'a', 0xab, 0x201c, '\'', ' ', '#', '\n'},
 	"generic-unknownsym": {'a', '?', '!', ' ', 0xffff, '#', '\n'},
+	"generic-quotedsym":  {'a', '`', '|', 'x', '!', ' ', '\'', '#'},
 	"expression-custom":  {'a', '1', '-', '>', '=', ' ', '\''},
 	"generic-2quotes":    {'a', '`', '\'', ' ', '#', '\n'},
 	"generic-interned":   {'a', ' ', '\n', '\r', '#'},
@@ -65,6 +66,7 @@ var optSnippets = map[string][]string{
 	"csv-wide":           {"日本；語；«q；»»r«\r\nстрана；\"x\"\"y\"；；\n", "a,b；c\r«open；", "«a««b«；«««"},
 	"generic-quotes":     {"a «b  c« “d“ 'e' \"f\" # c\n«open", "x«« ““y «'« “\"“ \uffff"},
 	"generic-unknownsym": {"a ? b ?! c !? <= ? # c\n?", "??!?\uffff?# c\n? ?"},
+	"generic-quotedsym":  {"a `` b |x| c !! 'q' || # c\n``", "``|x|!!`|x||x|! '``' 12  |x|"},
 	"expression-custom":  {"a->b => c-- -= -1 /* c */ - 2 --3 'q'", "x-->y  -=- 1e-5\n->"},
 	"generic-2quotes":    {"a `b``c` 'd' \"e\" # c\n`open", "`` ```` `'`  '`' x"},
 	"generic-interned":   {"a\nb \n c\n\nd \r\n e # c\n", "\n x\n\n  y"},
@@ -82,6 +84,7 @@ var optLexemes = map[string][]string{
 	"csv-wide":           {"a", "；", "«q««r«", "\"q\"", "\r\n", "ж", "««", "😀"},
 	"generic-quotes":     {"a", "«q r«", "“q“", "'q'", " ", "# c", "😀", "\n"},
 	"generic-unknownsym": {"a", "?", "?!", "!", " ", "# c", "\uffff", "\n"},
+	"generic-quotedsym":  {"a", "``", "|x|", "!!", "||", "`", "|", " ", "# c", "'q'", "'``'"},
 	"expression-custom":  {"a", "1", "->", "=>", "--", "-", ">", " ", "/*c*/", "'q'"},
 	"generic-2quotes":    {"a", "`q``r`", "``", "'q'", " ", "# c", "\n", "`"},
 	"generic-interned":   {"a", "\n", " ", "\r\n", "# c", "1"},
@@ -136,7 +139,7 @@ func genOpts(g *Gen, positions bool) {
 			offs = []int{62, 63, 64, 65, 126, 127, 128, 129, 191, 192, 255, 256}
 		}
 		fill := map[string]string{"generic": "ab 12 <= ", "expression": "ab 1.5 <= ", "csv": "ab,12,\"q\",", "mustache": "ab {{c}} d", "generic-custom": "a=:=b <!-- ",
-			"generic-arrows": "ab→ж 12 ", "csv-wide": "ab；«q«；ж；", "generic-quotes": "ab «q« 12 ", "generic-unknownsym": "ab ?! 12 ", "expression-custom": "ab->1 => ", "generic-2quotes": "ab `q` 12 ", "generic-interned": "ab\n12 \n"}[kind]
+			"generic-arrows": "ab→ж 12 ", "csv-wide": "ab；«q«；ж；", "generic-quotes": "ab «q« 12 ", "generic-unknownsym": "ab ?! 12 ", "generic-quotedsym": "ab `` |x| 12 ", "expression-custom": "ab->1 => ", "generic-2quotes": "ab `q` 12 ", "generic-interned": "ab\n12 \n"}[kind]
 		for _, p := range offs {
 			for bi, br := range []string{"\n", "\r\n", "\r", "\n\r"} {
 				if !g.Thorough() && bi >= 2 && p%64 != 63 {
